@@ -206,6 +206,30 @@ def check_histories(t, m, names, ctx):
     from anytree.exporter import MermaidExporter
 
     nodes = tree.build(m, tree.default_factory("node"), "topdown", names=names)
+    # an export aborted by the user's nodefunc raising at its k-th call (every k), then a complete export of the same object
+    for k in range(m.n):
+        state = {"n": 0, "k": k}
+
+        def flaky(nd):
+            i = state["n"]
+            state["n"] += 1
+            if state["k"] is not None and i == state["k"]:
+                raise KeyError("user nodefunc failed")
+            return '["%s"]' % MermaidExporter.esc(nd.name)
+        e = MermaidExporter(nodes[0], nodefunc=flaky)
+        try:
+            list(e)
+            aborted = False
+        except KeyError:
+            aborted = True
+        state["k"], state["n"] = None, 0
+        lines = list(e)
+        t.c["history_runs"] += 1
+        if not aborted or judge_default(t, m, names, lines, 0, (), (), None, dict(ctx, history="aborted-export-%d" % k)) is None:
+            if not aborted:
+                t.violation("C13: exception of the user's nodefunc was swallowed", dict(ctx, engine="E2", module=MOD, history="aborted-export",
+                            names=names, observed=lines, start=0, stop=[], filtered_out=[], maxlevel=None))
+            break
     e = MermaidExporter(nodes[0])
     seq = list(e)
     # interleaved iterations
